@@ -80,18 +80,37 @@ def run(tier, wd):
         for line in (["p0", "-x"], ["p0", "-x", "q"], ["-x", "p0"], ["p0", "--", "-x"], ["p0"], ["p0", "p1"], ["-", "-x"], ["p0", "-a"]):
             for base in ([], ["-b"]):
                 groups.append({"rel": "envmono", "members": [{"si": si, "env": base, "argv": line}, {"si": si, "env": sorted(base + [o]), "argv": line}]})
-    triples = gc.run_groups(rep, wd, binpath, [p], specs, groups, "envmono", law="monotone", only_opts=True)
+    # the built-in scalar types (BoolOpt, StringOpt) inside option groups, the backed option written up to four times
+    pb = dict(p, builtin=True)
+    B_ = g.Opt("-b")
+    for e_ in [g.Seq(g.Optional(g.Grp(keys, all_=True)), g.Rep(g.Optional(X_))), g.Seq(g.Optional(g.Grp(["-a", "-o"])), g.Optional(X_)),
+               g.Seq(g.Rep(g.Optional(g.Grp(["-a", "-b", "-e"]))), g.Optional(B_))]:
+        specs.append({"ast": e_, "str": g.render(p, e_), "hasend": False, "prog": 1, "nooracle": True})
+        si = len(specs) - 1
+        used = sorted(set(k for nd in g.walk(e_) if nd["k"] == "grp" for k in nd["xs"]))
+        for o in used:
+            occs = [G.occ(o, None if g.is_flag(p, o) else v_) for v_ in ("v", "w2", "u", "v")]
+            for n_ in (1, 2, 3, 4):
+                for _ in range(3):
+                    items = occs[:n_] + ([G.occ(rnd.choice([k for k in used if k != o]), None if g.is_flag(p, rnd.choice([k for k in used if k != o])) else "z")] if False else [])
+                    line = G.random_line(p, items, rnd)
+                    if rnd.random() < 0.5:
+                        line = line + ["x"] if g.has(e_, "arg") else line
+                    for base in ([], [k for k in used if k != o][:1]):
+                        groups.append({"rel": "envmono", "members": [{"si": si, "env": base, "argv": line}, {"si": si, "env": sorted(base + [o]), "argv": line}]})
+    triples = gc.run_groups(rep, wd, binpath, [p, pb], specs, groups, "envmono", law="monotone", only_opts=True)
     # every member is also compared with the reference under its own environment: "a required single option absent from the
     # command line is satisfied by its environment value" is a statement about each run, not about the pair
     extra = []
     for grp, pr, rs, v, classes in triples:
         if v == "ok":
-            bad = [i for i, c in enumerate(classes) if c.startswith("violation") and not pr["preds"][i]["uncl"]]
+            bad = [i for i, c in enumerate(classes) if c.startswith("violation") and not pr["preds"][i]["uncl"]
+                   and not specs[grp["members"][i]["si"]].get("nooracle")]
             if bad:
                 i = bad[0]
                 v = "violation:with env %s %s -> %s" % (grp["members"][i]["env"], grp["members"][i]["argv"], classes[i])
         extra.append((grp, pr, rs, v, classes))
-    gc.finish_groups(rep, [p], specs, extra,
+    gc.finish_groups(rep, [p, pb], specs, extra,
                      "a group = one spec x one command line (random sentence of the spec, often with one required option removed, shuffled, "
                      "sometimes perturbed) x a pair of environments E, E+{o} (TLC confirms they differ by exactly one option); accepted under E "
                      "must stay accepted under E+{o} with the same option values (--free specs), and each run must agree with the reference "
